@@ -13,7 +13,8 @@ RULE = ('prefixes of the shipped Tripoli-4 listings (tests/eponine/tripoli4/data
         'synthetic variants (editions duplicated, key lines moved): cut at a line boundary (30%), at every kind of byte inside '
         'a line the scanner interprets (40%: BATCH, number of tasks is, PACKET_LENGTH, initialization time, batch number :, '
         'Edition after batch number, number of batches used, simulation / exploitation / elapsed time, RESULTS ARE GIVEN), '
-        'or anywhere (30%); thorough: every byte offset of the listings below 15 kB; each prefix is opened in the one '
+        'or anywhere (30%), 20% of all cuts moved inside an end-flag (time) line; after a failed parse a complete listing '
+        'is parsed in another thread of the process (must return); thorough: every byte offset of the listings below 15 kB; each prefix is opened in the one '
         'long-lived checker process, which has parsed other listings before, under a limit of 20 s of processor time per call; non-trivial = a prefix '
         'on which the scan succeeds or that ends inside an interpreted line; distinct = (file, offset)')
 CORRESPONDS = ('Model/T4Scan.lean (Scanner._get_collres line by line, BatchResultScanner, PhEmEp / homogenised-material '
@@ -100,6 +101,14 @@ def gen(rng, tier, run):
         off = rng.randrange(a, b + 1)
     else:
         off = rng.randrange(0, len(info['data']) + 1)
+    if rng.random() < 0.2:
+        # inside an end-flag line: the scanner keeps the block as soon as it has seen the flag words, the grammar then meets
+        # an unterminated last line
+        flags = [(a, b) for a, b in info['spans']
+                 if any(k in info['data'][a:b] for k in (b'simulation time', b'exploitation time', b'elapsed time'))]
+        if flags:
+            a, b = rng.choice(flags)
+            off = rng.randrange(a, b + 1)
     variant = 'twice' if rng.random() < 0.1 else 'trailing' if rng.random() < 0.12 else 'plain'
     if variant == 'trailing':
         data = synth(info['data'], 'trailing')
@@ -239,6 +248,63 @@ def work_path(name):
     return os.path.join(_TMP['dir'], name)
 
 
+_PROBE = {}
+
+
+def other_thread_parses(timeout=60):
+    """after a parse that failed in this thread, a parse in ANOTHER thread of the same process still returns"""
+    import threading
+    if 'path' not in _PROBE:
+        from valjean.eponine.tripoli4.parse import Parser
+        files = listing_files()
+        _PROBE['path'] = work_path('probe.res')
+        for name in sorted(files, key=lambda n: len(files[n]['data'])):       # the smallest complete listing that parses
+            if b'NORMAL COMPLETION' not in files[name]['data']:
+                continue
+            with open(_PROBE['path'], 'wb') as fobj:
+                fobj.write(files[name]['data'])
+            try:
+                Parser(_PROBE['path']).parse_from_index(-1)
+                break
+            except Exception:  # pylint: disable=broad-except
+                continue
+    box = {}
+
+    def work():
+        from valjean.eponine.tripoli4.parse import Parser, ParserException
+        try:
+            Parser(_PROBE['path']).parse_from_index(-1)
+            box['outcome'] = 'ok'
+        except ParserException:
+            box['outcome'] = 'ParserException'
+        except Exception as exc:  # pylint: disable=broad-except
+            box['outcome'] = type(exc).__name__
+    thread = threading.Thread(target=work, daemon=True)
+    thread.start()
+    thread.join(timeout)
+    return box.get('outcome', 'hang')
+
+
+TIME_KEYS = ('simulation_time', 'exploitation_time', 'elapsed_time')
+
+
+def mask_times(obj):
+    """a canonical result with the times printed on the end-flag line blanked"""
+    if isinstance(obj, tuple) and len(obj) == 2 and obj[0] == 'dict':
+        return ('dict', [(k, None if k in TIME_KEYS else mask_times(v)) for k, v in obj[1]])
+    if isinstance(obj, tuple):
+        return tuple(mask_times(x) for x in obj)
+    if isinstance(obj, list):
+        return [mask_times(x) for x in obj]
+    return obj
+
+
+def cut_in_time_digits(full, offset):
+    import re
+    last = full[:offset].rsplit(b'\n', 1)[-1]
+    return bool(re.search(rb'(simulation|exploitation|elapsed) time[^\n]*\d$', last)) and full[offset:offset + 1].isdigit()
+
+
 def complete_result(case):
     key = (case['file'], case.get('variant', 'plain'))
     if key not in _COMPLETE:
@@ -291,6 +357,11 @@ def run_impl(case, run):
         out = scan_and_parse(path)
         if case.get('fresh'):
             out['fresh'] = run_fresh(path)
+        failed = out['outcome'] == 'ParserException' or any(v[0] == 'ParserException' for v in out.get('parse', {}).values())
+        _PROBE['n'] = _PROBE.get('n', 0) + (1 if failed else 0)
+        if failed and (_PROBE['n'] <= 3 or _PROBE['n'] % 5 == 0) and not _PROBE.get('hung'):
+            out['other_thread'] = other_thread_parses()
+            _PROBE['hung'] = out['other_thread'] == 'hang'
         # compare each edition that parses with the same edition of the complete listing
         out['identical'] = {}
         for key, res in out.get('parse', {}).items():
@@ -301,8 +372,13 @@ def run_impl(case, run):
                 out['identical'][key] = 'edition absent from the complete listing'
             elif ref[0] != 'ok':
                 out['identical'][key] = f'the complete listing gives {ref[0]} for this edition'
+            elif ref[1:] == res[1:]:
+                out['identical'][key] = True
+            elif mask_times(ref[1:]) == mask_times(res[1:]) and cut_in_time_digits(_full, case['offset']):
+                # the cut falls inside the digits of the time that ends the end-flag line: the number read is a prefix
+                out['identical'][key] = 'time digits cut'
             else:
-                out['identical'][key] = True if ref[1:] == res[1:] else 'differs'
+                out['identical'][key] = 'differs'
         out['parse'] = {k: v[0] if v[0] in ('ok', 'ParserException', 'timeout') else list(v) for k, v in out.get('parse', {}).items()}
         return out
     finally:
@@ -352,8 +428,19 @@ def oracle(case, impl, run):
             elif impl.get('parse', {}).get(int(key), impl.get('parse', {}).get(key)) != res:
                 fails.append(('history_independent', where + f': edition {key} gives {res} in a fresh process but '
                               f"{impl.get('parse', {}).get(int(key))} in a process that has parsed other listings"))
+    if 'other_thread' in impl:
+        run.count('another thread parses after a failed parse: ' + impl['other_thread'])
+        if impl['other_thread'] == 'hang':
+            fails.append(('never_hangs', where + ': after this failed parse, a parse of a complete listing in another thread of '
+                          'the same process did not return within 60 s'))
+        elif impl['other_thread'] != 'ok':
+            fails.append(('history_independent', where + f": after this failed parse, a complete listing parsed in another thread "
+                          f"gives {impl['other_thread']}"))
     for key, same in impl.get('identical', {}).items():
-        if same is not True:
+        if same == 'time digits cut':
+            fails.append(('prefix_edition_identical', where + f': TIME-DIGITS-CUT edition {key} parses with a truncated time '
+                          '(the cut is inside the digits that end the end-flag line); everything else is identical'))
+        elif same is not True:
             fails.append(('prefix_edition_identical', where + f': edition {key} parses, but {same}'))
     return fails
 
@@ -366,4 +453,4 @@ def nontrivial(case, impl):
 
 
 def signature(case, clause, detail):
-    return clause
+    return 'time_digits_cut' if clause == 'prefix_edition_identical' and 'TIME-DIGITS-CUT' in str(detail) else clause
